@@ -231,6 +231,13 @@ func c09MagnitudeSpace(do func(family, expr, spec string)) {
 				do("pad/"+kind, "pad_left(x, `"+w+"`)", d)
 				do("pad/"+kind, "pad_right(x, `"+w+"`, '-')", d)
 			}
+			// a pad string that is not exactly one character is an error whatever the width: the cost must not follow the width
+			for _, w := range ints {
+				for _, pad := range []string{"''", "'ab'", "`1`", "`null`"} {
+					do("pad-invalid/"+kind, "pad_left(x, `"+w+"`, "+pad+")", d)
+					do("pad-invalid/"+kind, "pad_right(x, `"+w+"`, "+pad+")", d)
+				}
+			}
 		}
 	}
 	// numeric text of enormous magnitude or precision
@@ -305,6 +312,23 @@ func c09Families() []c09Family {
 		}},
 		{"expr-args", func(n int) (string, any) { return "not_null(" + rep("x, ", n) + "a)", map[string]any{"a": num(1)} }},
 		{"expr-lets", func(n int) (string, any) { return rep("let $v = @ in ", n) + "$v", num(1) }},
+		{"expr-let-doubling", func(n int) (string, any) {
+			// each binding mentions the previous variable twice: linear when bindings are values, 2^n when they are re-evaluated
+			var b strings.Builder
+			b.WriteString("let $v0 = length(@) in ")
+			for i := 1; i <= n/8; i++ {
+				fmt.Fprintf(&b, "let $v%d = $v%d + $v%d in ", i, i-1, i-1)
+			}
+			return b.String() + "$v" + strconv.Itoa(n/8) + " == $v0", []any{}
+		}},
+		{"expr-let-fanout", func(n int) (string, any) {
+			var b strings.Builder
+			b.WriteString("let $v0 = [@, @] in ")
+			for i := 1; i <= n/8; i++ {
+				fmt.Fprintf(&b, "let $v%d = [$v%d[0], $v%d[1]] in ", i, i-1, i-1)
+			}
+			return b.String() + "$v" + strconv.Itoa(n/8) + "[0]", json.Number("1")
+		}},
 		{"expr-indexes", func(n int) (string, any) { return "@" + rep("[0]", n), []any{[]any{num(1)}} }},
 		{"expr-sum-chain", func(n int) (string, any) { return "a" + rep(" + a", n), map[string]any{"a": num(1)} }},
 		{"expr-pipes", func(n int) (string, any) { return "@" + rep(" | @", n), num(1) }},
